@@ -1738,6 +1738,9 @@ class Pool:
             # (copy: the result handler reaps exited workers concurrently)
             for p in list(pool):
                 if p._is_alive():
+                    # (controlled: whoever reaps it must not report an
+                    # unexpected exit)
+                    p._controlled_termination = True
                     p.terminate()
 
         debug('joining task handler')
